@@ -1,8 +1,47 @@
 (* C19 - hash table, object stack and variable length object keep their
    abstract contents.  Object stack and VLO: refinement theorems below.
-   Hash table: executable faithful model (Containers.v) tied by the
-   correspondence run; refinement proof in HashTabProofs.v (see DESIGN.md). *)
-From YV Require Import Prelude Generated Containers ContainersProofs.
+   Hash table: refinement to a finite set (HashTabProofs.v).  All three models
+   are tied to hashtab.c/.cpp, objstack.c/.cpp, vlobject.c/.cpp by the
+   correspondence run (same operation sequences, both implementations). *)
+From YV Require Import Prelude Generated GeneratedChecks Containers ContainersProofs HashTabProofs.
+
+(* A hash table created by create_hash_table finds exactly the elements inserted
+   and not removed, through any sequence of searches, insertions, removals (of
+   present elements, as the C interface requires), emptying and counting -
+   across expansions, deleted markers and the re-use of deleted slots. *)
+Theorem C19_hashtab : forall sz a m t os rs, create sz a m = Some t -> valid [] os -> hrun t os = Some rs ->
+  obs_all os rs (arun [] os).
+Proof. exact ht_refines. Qed.
+Print Assumptions C19_hashtab.
+
+(* one operation from any state satisfying the invariant (prime size, every
+   element reachable from its first probe through non-empty slots, counters) *)
+Theorem C19_hashtab_step : forall t S o t' r, Inv t -> R t S -> pre S o -> hstep t o = Some (t', r) ->
+  Inv t' /\ R t' (fst (astep S o)) /\ obs_eq o r (snd (astep S o)).
+Proof. exact hstep_refines. Qed.
+Print Assumptions C19_hashtab_step.
+
+(* the probe loop always terminates and no operation gets stuck (the model
+   returns None only if the bounded search for the next prime size gives up) *)
+Theorem C19_hashtab_total : forall t S o, Inv t -> R t S -> pre S o ->
+  (need_expand (size t) (nel t) = true -> higher_prime (new_size_of (nel t)) <> None) ->
+  hstep t o <> None.
+Proof. exact hstep_total. Qed.
+Print Assumptions C19_hashtab_total.
+
+(* the table size chosen by higher_prime_number is a prime larger than the request *)
+Theorem C19_hashtab_prime_size : forall n p, higher_prime n = Some p ->
+  Znumtheory.prime (Z.of_nat p) /\ n + 2 <= p /\ 3 <= p.
+Proof. exact higher_prime_spec. Qed.
+Print Assumptions C19_hashtab_prime_size.
+
+(* hashtab.cpp uses the same expansion test, probe step and new size as hashtab.c
+   (expressions regenerated from both sources), so the model above is also its model *)
+Theorem C19_hashtab_cpp_same_model : forall size n h,
+  ht_need_expand_cpp size n = ht_need_expand_c size n /\ ht_step_cpp size h = ht_step_c size h /\
+  ht_new_size_cpp n = ht_new_size_c n.
+Proof. intros. repeat split. Qed.
+Print Assumptions C19_hashtab_cpp_same_model.
 
 (* A variable length object holds exactly the bytes appended minus those
    shortened, and its length never exceeds its allocation. *)
